@@ -182,8 +182,8 @@ def gen_ctx(r):
     alg = "AES-CCM-16-64-128" if r.chance(0.3) else r.choice(ALGS)
     maxid = IV_BYTES[alg] - 6
     while True:
-        sid = r.randbytes(r.choice([0, 0, 1, 1, 2, maxid, r.randint(0, maxid)]))
-        rid = r.randbytes(r.choice([0, 1, 1, 2, maxid, r.randint(0, maxid)]))
+        sid = r.randbytes(min(maxid, r.choice([0, 0, 1, 1, 2, maxid, r.randint(0, maxid)])))
+        rid = r.randbytes(min(maxid, r.choice([0, 1, 1, 2, maxid, r.randint(0, maxid)])))
         if sid != rid:
             break
     x = r.random()
